@@ -22,6 +22,9 @@ pub enum Edit {
     RenameQuoted { line: usize, occ: usize },
     /// the `occ`-th quoted name on `line` gets a non-ASCII character in front (byte offsets shift)
     RenameQuotedUnicode { line: usize, occ: usize },
+    /// the `from_end`-th character from the end of the `occ`-th quoted name becomes a two-byte
+    /// character (code that cuts a fixed number of *bytes* off a name then lands inside it)
+    NameCharNonAscii { line: usize, occ: usize, from_end: usize },
     /// a reference renamed to the name of ANOTHER existing definition: `how` = "self" (the name
     /// of the block the line is in) or "next" (the next definition of the same type as the
     /// current target, or - when the current value names nothing, e.g. "Ninguna" - as the block
@@ -95,6 +98,7 @@ impl Edit {
             Edit::BlockRemoved { .. } => "disk.block_removed",
             Edit::RenameQuoted { .. } => "disk.name_renamed",
             Edit::RenameQuotedUnicode { .. } => "disk.name_renamed_nonascii",
+            Edit::NameCharNonAscii { .. } => "disk.name_char_nonascii",
             Edit::RefRetarget { .. } => "disk.reference_retargeted",
             Edit::DelimDropped { .. } => "disk.delimiter_dropped",
             Edit::TruncAtDelim { .. } => "disk.truncated_at_delimiter",
@@ -127,6 +131,7 @@ impl Edit {
             | Edit::BlockRemoved { line }
             | Edit::RenameQuoted { line, .. }
             | Edit::RenameQuotedUnicode { line, .. }
+            | Edit::NameCharNonAscii { line, .. }
             | Edit::RefRetarget { line, .. }
             | Edit::DelimDropped { line, .. }
             | Edit::TruncAtDelim { line, .. }
@@ -250,10 +255,23 @@ pub fn scan_tbl_blocks(lines: &[&str]) -> Vec<Block> {
 }
 
 /// Byte ranges of quoted strings ("...") on a line; the range covers the content only.
+/// separators of one line that get variants (and cells) of their own
+pub const MAX_SEP_OCC: usize = 16;
 pub const DELIMS: &[&str] = &["quote_first", "quote_last", "eq", "paren_open", "paren_close", "comma", "semicolon", "lt", "gt"];
 
 /// Byte position of the delimiter `which` on the line (all of them are ASCII).
 pub fn delim_pos(l: &str, which: &str) -> Option<usize> {
+    // "semicolon#k" / "comma#k": the k-th occurrence (0-based) - losing a later separator of a
+    // record changes its field count without touching the record type in field 0
+    if let Some((base, k)) = which.split_once('#') {
+        let c = match base {
+            "semicolon" => ';',
+            "comma" => ',',
+            _ => return None,
+        };
+        let k: usize = k.parse().ok()?;
+        return l.match_indices(c).nth(k).map(|(p, _)| p);
+    }
     match which {
         "quote_first" => l.find('"'),
         "quote_last" => {
@@ -630,6 +648,22 @@ pub fn apply(text: &str, e: &Edit) -> Option<String> {
             let spans = quoted_spans(l);
             let (s_, _) = *spans.get(*occ)?;
             let newl = format!("{}ñ{}", &l[..s_], &l[s_..]);
+            let mut v = lines.clone();
+            v[*line] = &newl;
+            Some(join(&v))
+        }
+        Edit::NameCharNonAscii { line, occ, from_end } => {
+            let l = get(*line)?;
+            let spans = quoted_spans(l);
+            let (s_, e_) = *spans.get(*occ)?;
+            let mut cs: Vec<char> = l[s_..e_].chars().collect();
+            if *from_end == 0 || *from_end > cs.len() {
+                return None;
+            }
+            let k = cs.len() - *from_end;
+            cs[k] = if cs[k] == 'ñ' { 'ü' } else { 'ñ' };
+            let name: String = cs.into_iter().collect();
+            let newl = format!("{}{}{}", &l[..s_], name, &l[e_..]);
             let mut v = lines.clone();
             v[*line] = &newl;
             Some(join(&v))
@@ -1039,6 +1073,13 @@ pub fn enumerate_c19(file: &CorpusFile, thorough: bool) -> Vec<Variant> {
             let cell = match &e {
                 Edit::NumOor { val, .. } => format!("{}|{}={}", cellbase, e.kind_name(), val),
                 Edit::DelimDropped { which, .. } | Edit::TruncAtDelim { which, .. } => format!("{}|{}:{}", cellbase, e.kind_name(), which),
+                Edit::NameCharNonAscii { occ, from_end, .. } => {
+                    // special cases in the readers are keyed by how a name starts: one cell per
+                    // first word of the damaged name
+                    let (a, b) = quoted_spans(l)[*occ];
+                    let w: String = l[a..b].chars().take_while(|c| c.is_alphabetic()).take(6).collect::<String>().to_lowercase();
+                    format!("{}|{}|{}:{}|{}", fk, li.region, e.kind_name(), from_end, w)
+                }
                 Edit::DelLine { .. } if first_vertex => format!("{}|{}|first vertex|{}|{}", cellbase, e.kind_name(), file.rel, i),
                 _ => format!("{}|{}", cellbase, e.kind_name()),
             };
@@ -1060,13 +1101,25 @@ pub fn enumerate_c19(file: &CorpusFile, thorough: bool) -> Vec<Variant> {
         for (occ, _) in quoted_spans(l).iter().enumerate() {
             push(Edit::RenameQuoted { line: i, occ });
             push(Edit::RenameQuotedUnicode { line: i, occ });
+            if li.region != "xml" {
+                for from_end in 1..=6 {
+                    push(Edit::NameCharNonAscii { line: i, occ, from_end });
+                }
+            }
             if !li.is_header && header_of(l).is_none() && li.region != "xml" {
                 for how in ["self", "next"] {
                     push(Edit::RefRetarget { line: i, occ, how: how.to_string() });
                 }
             }
         }
-        for which in DELIMS {
+        let mut whiches: Vec<String> = DELIMS.iter().map(|w| w.to_string()).collect();
+        // every further separator of a record (the first one is "semicolon" / "comma" above)
+        for (name, c) in [("semicolon", ';'), ("comma", ',')] {
+            for k in 1..l.matches(c).count().min(MAX_SEP_OCC) {
+                whiches.push(format!("{}#{}", name, k));
+            }
+        }
+        for which in &whiches {
             if delim_pos(l, which).is_some() {
                 push(Edit::DelimDropped { line: i, which: which.to_string() });
                 if i + 1 < lines.len() || delim_pos(l, which).map(|p| p + 1 < l.len()).unwrap_or(false) {
